@@ -1,12 +1,20 @@
 """C31 — Honest nodes never commit conflicting blocks. (M) spec/Consensus.tla exhaustive;
 (V) real ConsensusState objects stepped by a seeded adversarial scheduler (harness/cmd/consensus),
-every step validated against the guards of ConsensusGuards.tla by spec/ConsensusTrace.tla."""
-import json, os, re, vlib, tracelib
+every step validated against the guards of ConsensusGuards.tla by spec/ConsensusTrace.tla;
+(R+V) model-driven schedules: behaviours of spec/ConsensusSched.tla (a realisable, delivery-explicit refinement
+of Consensus.tla) are replayed step by step into the real nodes (-mode sched), the real projection is compared
+with the model's after every step (differences only abandon the behaviour: unrealisable:<reason>), and the recorded
+execution goes through the same ConsensusTrace validation, which alone produces verdicts.
+
+VERIF_C31_STAGES (diagnostics only; default "model,chaos,sched"): comma list of model, chaos, chaos-nodirected,
+directed, sched."""
+import collections, json, os, random, re, threading, vlib, tracelib
 LEVEL = "model_checking"
 
 
-def validate(ctx, lines):
-    """Returns list of (scenario_lines, line_in_scenario, guard names / 'Agreement')."""
+def validate(ctx, lines, max_bad=None):
+    """Returns list of (scenario_lines, line_in_scenario, guard names / 'Agreement').
+    max_bad: stop looking after that many rejected scenarios (the rest is not validated)."""
     scens = [s for _, s in tracelib.split_scenarios(lines)]
     bad = []
     remaining = scens
@@ -33,6 +41,8 @@ def validate(ctx, lines):
                 if pos < k <= pos + len(s):
                     bad.append((s, k - pos, what))
                     remaining = remaining[j + 1:]
+                    if max_bad is not None and len(bad) >= max_bad:
+                        remaining = []
                     break
                 pos += len(s)
             else:
@@ -41,60 +51,228 @@ def validate(ctx, lines):
         if r.error or not r.ok:
             raise vlib.Inconclusive("TLC-ERROR", (r.error or r.out[-1500:]))
         remaining = []
-    if remaining:
+    if remaining and not bad:
         raise vlib.Inconclusive("TRACE", "too many rejected scenarios")
-    return bad, len(scens), states
+    return bad, len(scens), states      # (with ten rejected scenarios the rest is left unvalidated: they are reported)
+
+
+REQUIRED_SITUATIONS = ["lock-then-different-polka", "unlock", "relock", "stale-polka-after-round-change", "equivocating-proposal-split"]
+
+
+def report_trace_violations(ctx, stage, bad, extra=None):
+    ctx.log("stage %s: %d recorded scenario(s) rejected by ConsensusTrace%s" % (stage, len(bad), (": " + ", ".join(sorted({str(w) for _, _, w in bad}))) if bad else ""))
+    for scen, k, what in bad:
+        ev = scen[k - 1] if 0 < k <= len(scen) else {}
+        case = {"scenario": scen, "failed_at": k, "stage": stage}
+        if extra:
+            case.update(extra(scen) or {})
+        ctx.violation("C31:%s" % what, "[%s stage] node %s at line %d of the scenario: %s; event %s" % (stage, ev.get("node"), k, what, json.dumps(ev)[:500]), case)
+
+
+def report_panics(ctx, s, lines):
+    if s.get("node_panics"):
+        ctx.notes.append("%d node panics recorded (halted nodes)" % s["node_panics"])
+        pl = [x for x in lines if x.get("act") == "Panic" and x.get("honest")]
+        if pl:
+            ctx.violation("C31:honest-node-panicked:" + pl[0].get("where", "")[:80], "an honest node panicked inside a consensus step: %s" % json.dumps(pl[0])[:400], {"panic": pl[0]})
+
+
+def select_behaviours(behs, k, seed):
+    """Coverage-guided choice of k behaviours out of the simulated ones: behaviours showing the rarest situations /
+    code branches first (all of them for rare ones, a quota for frequent ones), the rest at random."""
+    rng = random.Random(seed)
+    tags = []
+    for b in behs:
+        t = set()
+        for st in b[1:]:
+            t.update("sit:" + x for x in st.get("sit", []))
+            t.update("br:" + x for x in st.get("br", []))
+        tags.append(t)
+    freq = collections.Counter(x for t in tags for x in t)
+    order = list(range(len(behs)))
+    rng.shuffle(order)
+    chosen, cs, have = [], set(), collections.Counter()
+    quota = max(8, k // 8)
+    for tag in sorted(freq, key=lambda x: (freq[x], x)):
+        for i in order:
+            if len(chosen) >= k or have[tag] >= quota:
+                break
+            if tag in tags[i] and i not in cs:
+                chosen.append(i)
+                cs.add(i)
+                have.update(tags[i])
+    for i in order:
+        if len(chosen) >= k:
+            break
+        if i not in cs:
+            chosen.append(i)
+            cs.add(i)
+    return [behs[i] for i in chosen]
+
+
+def validate_parallel(ctx, lines, nchunks, max_bad):
+    scens = [s for _, s in tracelib.split_scenarios(lines)]
+    nchunks = max(1, min(nchunks, len(scens)))
+    chunks = [[x for s in scens[i::nchunks] for x in s] for i in range(nchunks)]
+    out, errs = [None] * nchunks, []
+
+    def work(i):
+        try:
+            out[i] = validate(ctx, chunks[i], max_bad=max_bad)
+        except BaseException as e:      # re-raised in the caller's thread
+            errs.append(e)
+    ths = [threading.Thread(target=work, args=(i,)) for i in range(nchunks)]
+    for t in ths:
+        t.start()
+    for t in ths:
+        t.join()
+    if errs:
+        raise errs[0]
+    return [b for o in out for b in o[0]], sum(o[1] for o in out), sum(o[2] for o in out)
+
+
+def sched_stage(ctx, binary, behaviours=None):
+    """Model-driven schedules (spec/ConsensusSched.tla -> harness/cmd/consensus -mode sched -> ConsensusTrace.tla)."""
+    quick = ctx.tier == "quick"
+    if behaviours is None:
+        if not quick:
+            # the delivery-explicit model itself, exhaustively, where that is feasible: round 0, a Byzantine proposer that
+            # equivocates with two blocks, no Byzantine votes -- refinement invariants and the guard assertion on every transition
+            rq = vlib.run_tlc(ctx, "MCConsensusSched", "ConsensusSched_q.cfg", timeout=7200, workers=6, jvm=["-Xmx6g"])
+            vlib.require_model_ok(rq, "ConsensusSched_q.cfg")
+            ctx.add_tlc(rq, "ConsensusSched exhaustive: round 0, equivocating Byzantine proposer, no Byzantine votes")
+        cfg, per, workers, k, depth = ("ConsensusSched_sim.cfg", 250, 4, 260, 100) if quick else ("ConsensusSched_simt.cfg", 800, 6, 2000, 140)
+        r = vlib.run_tlc(ctx, "MCConsensusSched", cfg, mode="simulate", simulate=per, depth=depth, workers=workers, tags=("TRACE",),
+                         timeout=1800 if quick else 7200, jvm=["-Xmx4g"])
+        vlib.require_model_ok(r, cfg)      # a failing model run is never a verdict
+        ctx.add_tlc(r, "ConsensusSched simulation (%s): %d behaviours" % (cfg, len(r.traces)))
+        if len(r.traces) < k // 2:
+            raise vlib.Inconclusive("TLC-ERROR", "only %d behaviours out of the ConsensusSched simulation" % len(r.traces))
+        ctx.cov["sched_behaviours_generated"] = len(r.traces)
+        behaviours = select_behaviours(r.traces, k, ctx.seed)
+    out = os.path.join(ctx.scratch_dir("sched"), "consensus_trace.ndjson")
+    res = vlib.run_driver(ctx, binary, ["-mode", "sched", "-out", out], behaviours=behaviours, timeout=3000)
+    s = vlib.handle_driver_results(ctx, res)
+    lines = [json.loads(l) for l in open(out) if l.strip()]
+    nb, nend = int(s.get("sched_behaviours", 0)), int(s.get("sched_replayed_to_end", 0))
+    if nb != len(behaviours):
+        raise vlib.Inconclusive("DRIVER", "sched driver replayed %d of %d behaviours" % (nb, len(behaviours)))
+    grp = lambda pre: {k[len(pre):]: int(v) for k, v in sorted(s.items()) if k.startswith(pre)}
+    unreal = grp("unreal:")
+    ctx.cov.update({"sched_behaviours_replayed": nb, "sched_replayed_to_end": nend, "sched_realisable_ratio": round(nend / max(1, nb), 3),
+                    "sched_steps_realised": int(s.get("sched_steps", 0)), "sched_model_steps": int(s.get("sched_model_steps", 0)),
+                    "sched_trace_lines": len(lines), "sched_unrealisable": unreal, "sched_actions": grp("act:"), "sched_branches": grp("br:"),
+                    "sched_situation_steps": grp("sit:"), "sched_situation_behaviours": grp("sitb:"), "sched_real_node_events": grp("real:"),
+                    "sched_proposer_orders": grp("order:")})
+    for x in [x for x in res if x.get("kind") == "unrealisable"][:3]:
+        ctx.notes.append("unrealisable:%s at step %s: %s" % (x.get("reason"), x.get("step"), str(x.get("detail"))[:300]))
+    report_panics(ctx, s, lines)
+    # verdicts: the recorded execution against the guards / Agreement, exactly as for the chaos traces
+    beh_of = {id(scen[0]): b for b, (_, scen) in zip(behaviours, tracelib.split_scenarios(lines))}   # keyed by the Init line object
+    bad, nscen, states = validate_parallel(ctx, lines, 1 if quick else 6, max_bad=3)
+    ctx.add("trace_states", states)
+    ctx.add("traces_validated_against_impl", nscen)
+    report_trace_violations(ctx, "model-driven", bad, extra=lambda scen: {"behaviour": beh_of.get(id(scen[0]))})
+    # not vacuous: the situations the locking rules exist for were reached ON THE REAL NODES (steps that replayed)
+    sitb = ctx.cov["sched_situation_behaviours"]
+    missing = [x for x in REQUIRED_SITUATIONS if not sitb.get(x)]
+    if nend < 0.7 * nb:
+        raise vlib.Inconclusive("SCHED-UNREALISABLE", "only %d of %d model behaviours replay to their end on the real nodes: %s" % (nend, nb, unreal))
+    if missing:
+        raise vlib.Inconclusive("VACUOUS", "no replayed model-driven behaviour reached: %s" % ", ".join(missing))
+    for x in lines[1:3]:
+        ctx.sample(x, limit=6)
 
 
 def run(ctx):
     binary = vlib.go_build("consensus", ctx)
     case = ctx.replay_case()
     if case:
+        if case.get("behaviour"):
+            # a model-driven schedule: run it again on the real nodes, then validate what they did
+            sched_stage_replay(ctx, binary, case)
+            return
         bad, n, states = validate(ctx, case["scenario"])
         ctx.cov.update({"states": states or 1, "transitions": states or 1, "traces_validated_against_impl": 1})
         ctx.sample(case["scenario"][:2])
         for s, k, what in bad:
             ctx.violation("C31:replayed-trace:" + str(what), "recorded trace violates %s at line %d" % (what, k), case)
         return
+    stages = set(x.strip() for x in os.environ.get("VERIF_C31_STAGES", "model,chaos,sched").split(",") if x.strip())
+    if stages != {"model", "chaos", "sched"}:
+        ctx.notes.append("partial run (diagnostics): stages %s" % sorted(stages))
+    todo = []
+    if "model" in stages:
+        todo.append(lambda: model_stage(ctx))
+    for st in ("chaos", "chaos-nodirected", "directed"):
+        if st in stages:
+            todo.append(lambda st=st: chaos_stage(ctx, binary, {"chaos": [], "chaos-nodirected": ["-x", "nodirected"], "directed": ["-x", "directedonly"]}[st]))
+    if "sched" in stages:
+        todo.append(lambda: sched_stage(ctx, binary))
+    inconclusive = None
+    for stage in todo:
+        # an inconclusive stage does not keep the others from looking (what they see on the real code still counts)
+        try:
+            stage()
+        except vlib.Inconclusive as e:
+            ctx.log("stage inconclusive: %s" % str(e)[:300])
+            inconclusive = inconclusive or e
+    ctx.cov.setdefault("states", 1)
+    ctx.cov.setdefault("transitions", 1)
+    ctx.assumptions += ["4 validators (3-4 honest real ConsensusState objects; the Byzantine one is played by two twin instances with the same key, crafted votes and false +2/3 claims); kvstore application; MockPV (no double-sign protection, so the consensus logic itself is what is held to the guards)",
+                        "chaos schedules are sampled (seeded), not enumerated; exhaustiveness is on the model side",
+                        "model-driven schedules: behaviours of ConsensusSched.tla (3 honest + 1 Byzantine validator of equal power, one height, rounds 0..2 quick / 0..3 thorough) obtained by biased TLC simulation and chosen for situation / branch coverage, not enumerated (the delivery-explicit model has > 2.6 M states at depth 11 of round 0 alone); a node's own votes are processed before the next stimulus; a proposal travels with its block; no false +2/3 claims in this stage",
+                        "liveness is checked as bounded progress after the scheduler starts delivering everything"]
+    if inconclusive is not None:
+        raise inconclusive
+
+
+def sched_stage_replay(ctx, binary, case):
+    out = os.path.join(ctx.scratch_dir("sched"), "consensus_trace.ndjson")
+    res = vlib.run_driver(ctx, binary, ["-mode", "sched", "-out", out], behaviours=[case["behaviour"]], timeout=600)
+    vlib.handle_driver_results(ctx, res)
+    lines = [json.loads(l) for l in open(out) if l.strip()]
+    bad, n, states = validate(ctx, lines)
+    ctx.cov.update({"states": states or 1, "transitions": states or 1, "traces_validated_against_impl": 1})
+    ctx.sample(lines[:2])
+    for s, k, what in bad:
+        ctx.violation("C31:replayed-trace:" + str(what), "re-run model-driven schedule violates %s at line %d" % (what, k), case)
+
+
+def model_stage(ctx):
     # (M) the guards are sufficient for Agreement on the bounded model; too much Byzantine power breaks it (non-vacuity)
     cfgs = [("Consensus_q.cfg", "3 honest + 1 byzantine (equal power), rounds 0..1")]
     if ctx.tier == "thorough":
         cfgs += [("Consensus_u.cfg", "4 honest + 1 byzantine, unequal powers, rounds 0..1"), ("Consensus_t.cfg", "3 honest + 1 byzantine, rounds 0..2")]
     for cfg, label in cfgs:
-        r = vlib.run_tlc(ctx, "MCConsensus", cfg, timeout=7200)
+        r = vlib.run_tlc(ctx, "MCConsensus", cfg, timeout=21600)      # Consensus_t: 43 M states, 7.6 min idle, > 2 h at load 100
         vlib.require_model_ok(r, cfg)
         ctx.add_tlc(r, label)
     rb = vlib.run_tlc(ctx, "MCConsensus", "Consensus_bad.cfg", timeout=900, workers=4, jvm=["-Xmx3g"])
     if rb.violated != "Agreement":
         raise vlib.Inconclusive("VACUOUS", "Agreement does not fail with >= 1/3 byzantine power: the model does not exercise it")
+
+
+def chaos_stage(ctx, binary, xargs):
     # (V) real nodes
     n = 12 if ctx.tier == "quick" else 120
     out = os.path.join(ctx.scratch_dir("rec"), "consensus_trace.ndjson")
-    res = vlib.run_driver(ctx, binary, ["-out", out, "-n", str(n)], timeout=3000)
+    res = vlib.run_driver(ctx, binary, ["-out", out, "-n", str(n)] + xargs, timeout=3000)
     s = vlib.handle_driver_results(ctx, res)
     noprog = [x for x in res if x.get("kind") == "noprogress"]
     lines = [json.loads(l) for l in open(out) if l.strip()]
-    if not s.get("locks_carried_to_later_round"):
-        raise vlib.Inconclusive("VACUOUS", "no scenario carried a lock into a later round")
     bad, nscen, states = validate(ctx, lines)
-    ctx.cov["trace_states"] = states
+    ctx.add("trace_states", states)
     ctx.cov["impl_steps"] = int(s.get("steps", 0))
     ctx.cov["heights_committed"] = int(s.get("heights", 0))
     ctx.cov["directed_lock_splits"] = int(s.get("directed_lock_splits", 0))
     ctx.cov["locks_carried_to_later_round"] = int(s.get("locks_carried_to_later_round", 0))
-    if s.get("node_panics"):
-        ctx.notes.append("%d node panics recorded (halted nodes)" % s["node_panics"])
-        pl = [x for x in lines if x.get("act") == "Panic" and x.get("honest")]
-        if pl:
-            ctx.violation("C31:honest-node-panicked:" + pl[0].get("where", "")[:80], "an honest node panicked inside a consensus step: %s" % json.dumps(pl[0])[:400], {"panic": pl[0]})
+    report_panics(ctx, s, lines)
     ctx.add("traces_validated_against_impl", nscen)
-    for scen, k, what in bad:
-        ev = scen[k - 1] if 0 < k <= len(scen) else {}
-        ctx.violation("C31:%s" % what, "node %s at line %d of the scenario: %s; event %s" % (ev.get("node"), k, what, json.dumps(ev)[:500]),
-                      {"scenario": scen, "failed_at": k})
+    report_trace_violations(ctx, "chaos" + "".join(xargs[1:]), bad)
     if noprog:
         # bounded progress after GST: reproduce once with the same seed before reporting
-        res2 = vlib.run_driver(ctx, binary, ["-out", out + ".2", "-n", str(n)], timeout=3000)
+        res2 = vlib.run_driver(ctx, binary, ["-out", out + ".2", "-n", str(n)] + xargs, timeout=3000)
         again = [x for x in res2 if x.get("kind") == "noprogress"]
         if again and {x["scenario"] for x in again} & {x["scenario"] for x in noprog}:
             ctx.violation("C31:no-progress-after-GST", "honest nodes did not commit two further heights after all messages were delivered: %s" % noprog[:2], {"noprogress": noprog})
@@ -102,6 +280,5 @@ def run(ctx):
             ctx.notes.append("FLAKY: a no-progress report did not reproduce")
     for x in lines[1:4]:
         ctx.sample(x, limit=5)
-    ctx.assumptions += ["4 validators (3-4 honest real ConsensusState objects; the Byzantine one is played by two twin instances with the same key, crafted votes and false +2/3 claims); kvstore application; MockPV (no double-sign protection, so the consensus logic itself is what is held to the guards)",
-                        "schedules are sampled (seeded), not enumerated; exhaustiveness is on the model side",
-                        "liveness is checked as bounded progress after the scheduler starts delivering everything"]
+    if not s.get("locks_carried_to_later_round"):
+        raise vlib.Inconclusive("VACUOUS", "no scenario carried a lock into a later round")
